@@ -325,6 +325,8 @@ package main
 //@        gtOk[len(old(gtOk))] && isType(cast(gtRes[len(old(gtRes))], "*FailOverClientTransport").primary, "*TCPClientTransport")
 //@        && asRef(cast(gtRes[len(old(gtRes))], "*FailOverClientTransport").primary, "*TCPClientTransport").conn == rawMessage.TcpConn
 //@        && !asRef(cast(gtRes[len(old(gtRes))], "*FailOverClientTransport").primary, "*TCPClientTransport").reconnectable
+//@   ensures tcp-registers-lifetime: old(now) >= 0 && rawMessage.Message.request != nil && !isNil(rawMessage.TcpConn) && len(hopOk) > len(old(hopOk)) && hopOk[len(old(hopOk))] && len(ctOk) > len(old(ctOk)) && ctOk[len(old(ctOk))] ==>
+//@        asRef(cast(gtRes[len(old(gtRes))], "*FailOverClientTransport").primary, "*TCPClientTransport").expire >= old(now) / 1000000000 + 3600
 //@   ensures one-lookup-at-most: len(gtHost) <= len(old(gtHost)) + 1 && rtHost == old(rtHost)
 //@   ensures other-entries-untouched: forall f *FailOverClientTransport :: old(allocated(f)) && (len(gtRes) == len(old(gtRes)) || f != cast(gtRes[len(old(gtRes))], "*FailOverClientTransport")) ==> f.primary == old(f.primary) && f.secondary == old(f.secondary)
 //@   ensures returns-message: result == rawMessage.Message && err == nil
